@@ -195,6 +195,20 @@ def static_case(case, fail):
         break
     if not np.array_equal(t1['I'], t0['I']):
         fail('noise_identity_preserved', 'P(I) changed under deformation')
+    # ... and as a probability of whole errors: P_def(e) = P_undef(D(e))
+    for e, de in list(zip(E, DE))[:12]:
+        for log in (False, True):
+            a = float(m1.error_probability(e, und, p, log_output=log))
+            b = float(m0.error_probability(de, und, p, log_output=log))
+            if not (a == b or abs(a - b) <= 1e-10 * max(abs(a), abs(b))):
+                fail('noise_probability_of_relabelled_error',
+                     f'e={np.nonzero(e)[0].tolist()}: deformed model gives '
+                     f'{"log " if log else ""}P(e)={a!r}, undeformed model gives '
+                     f'{"log " if log else ""}P(D(e))={b!r}')
+                break
+        else:
+            continue
+        break
     n_def = sum(1 for t in tables if t != {'X': 'X', 'Y': 'Y', 'Z': 'Z'})
     return {'n': n, 'n_def': n_def}
 
